@@ -13,6 +13,8 @@
 (* TLC evaluates the ASSUMEs; there is one trivial state.                              *)
 EXTENDS RoutingPlace, TLC
 
+CONSTANT Full      \* FALSE (quick tier): one of the two 160-bucket rings only
+
 S(cps) == [kind |-> "str", cps |-> cps]
 I(neg, n) == [kind |-> "int", neg |-> neg, digits |-> DecOf(n)]
 Hello  == <<104,101,108,108,111,44,32,119,111,114,108,100>>     \* "hello, world"
@@ -39,6 +41,7 @@ ASSUME MycatMurmurSeed0Count2 ==
     IN /\ P(<<>>) = Table(0) /\ P(Hello) = Table(0) /\ P(NiHao) = Table(0) /\ P(Punct) = Table(1)
        /\ P(M50) = Table(0) /\ P(M46) = Table(1)
 ASSUME MycatMurmurSeed1Count4 ==
+    Full =>
     LET r == Mur(1, 4)  ring == Ring(1, 160, 4)  P(s) == MycatMurmurPlaceWith(ring, r, S(s))
     IN /\ P(<<>>) = Table(2) /\ P(Hello) = Table(1) /\ P(NiHao) = Table(0) /\ P(Punct) = Table(1)
        /\ P(M50) = Table(1) /\ P(M47) = Table(2) /\ P(M46) = Table(3)
